@@ -539,6 +539,23 @@ def check_matrix_view(prog: Program, res: Result) -> None:
              "symmetric entries")
     fi = prog.resolve_method("MolGraph", "connectivity_matrix")
     me = fi.params()[0]
+    # positions taken from the iteration ORDER of another container: looping
+    # over the values of the neighbour table (keys dropped) numbers the rows
+    # by that table's order, which differs from the atoms view after
+    # subgraph() / relabelling
+    for n in ast.walk(fi.node):
+        if isinstance(n, (ast.For, ast.comprehension)) and norm(n.iter) in (
+                f"{me}._neighbors.values()", f"{me}.neighbors.values()"):
+            res.bad("R-VIEW-AGREE", "connectivity_matrix: rows follow the "
+                    "order of the neighbour table", fi.loc(
+                        n if isinstance(n, ast.For) else n.iter),
+                    f"connectivity_matrix: `{norm(n.iter)}` is iterated "
+                    "without its keys, so the row of an atom is its position "
+                    "in the neighbour table; columns come from the atoms "
+                    "view; the two orders differ after subgraph([5, 1, 3]) / "
+                    "relabelling and the matrix disagrees with `bonds`",
+                    instance="connectivity_matrix: rows and columns are "
+                    "numbered by one view")
     dcs = [n for n in ast.walk(fi.node) if isinstance(n, ast.Assign)
            and isinstance(n.value, ast.DictComp)
            and norm(n.value.generators[0].iter) in (
